@@ -2783,15 +2783,35 @@ fn pattern_matches(pattern: &[u8], text: &[u8]) -> bool {
                     continue;
                 }
                 b'[' => {
-                    if let Some(end) = pattern_chars[p_idx..].iter().position(|&c| c == b']') {
-                        let class_end = p_idx + end;
+                    // The class ends at the first ']' that is not escaped by a backslash
+                    let mut scan = p_idx + 1;
+                    let mut class_end_found = None;
+                    while scan < pattern_chars.len() {
+                        if pattern_chars[scan] == b'\\' && scan + 1 < pattern_chars.len() {
+                            scan += 2;
+                            continue;
+                        }
+                        if pattern_chars[scan] == b']' {
+                            class_end_found = Some(scan);
+                            break;
+                        }
+                        scan += 1;
+                    }
+                    if let Some(class_end) = class_end_found {
                         let negate = p_idx + 1 < class_end && pattern_chars[p_idx + 1] == b'^';
                         let start_idx = if negate { p_idx + 2 } else { p_idx + 1 };
                         
                         let mut matched = false;
                         let mut i = start_idx;
                         while i < class_end {
-                            if i + 2 < class_end && pattern_chars[i + 1] == b'-' {
+                            if pattern_chars[i] == b'\\' && i + 1 < class_end {
+                                // an escaped byte stands for itself
+                                if text_chars[t_idx] == pattern_chars[i + 1] {
+                                    matched = true;
+                                    break;
+                                }
+                                i += 2;
+                            } else if i + 2 < class_end && pattern_chars[i + 1] == b'-' {
                                 if text_chars[t_idx] >= pattern_chars[i] && text_chars[t_idx] <= pattern_chars[i + 2] {
                                     matched = true;
                                     break;
